@@ -18,6 +18,7 @@ static long vf_alloc_fail_at;          /* 0: never; k: the k-th request returns 
 static long vf_ledger_errors, vf_ledger_allocs_total, vf_ledger_checks, vf_ledger_leaks;
 static char vf_ledger_msg[160];
 
+static int vf_ledger_trace(void) { static int t = -1; if (t < 0) t = getenv("VF_LEDGER_TRACE") != 0; return t; }
 static void vf_ledger_reset_counts(void) { vf_alloc_count = 0; }
 
 static int vf_ledger_find(void *p)
@@ -40,7 +41,7 @@ static void *vf_ledger_alloc(size_t n)
 	vf_ledger_allocs_total++;
 	if (vf_alloc_fail_at && vf_alloc_count == vf_alloc_fail_at) return 0;
 	p = malloc(n ? n : 1);
-	if (getenv("VF_LEDGER_TRACE")) fprintf(stderr, "alloc #%ld %p %lu\n", vf_alloc_count, p, (unsigned long)n);
+	if (vf_ledger_trace()) fprintf(stderr, "alloc #%ld %p %lu\n", vf_alloc_count, p, (unsigned long)n);
 	if (p && vf_nlive < VF_LEDGER_MAX) {
 		memset(p, 0xA5, n);              /* fresh memory has no particular content */
 		vf_live[vf_nlive] = p; vf_live_size[vf_nlive] = n; vf_nlive++;
@@ -73,7 +74,7 @@ static void vf_ledger_free(void *p)
 	int i;
 	if (!p) return;
 	i = vf_ledger_find(p);
-	if (getenv("VF_LEDGER_TRACE")) fprintf(stderr, "free %p\n", p);
+	if (vf_ledger_trace()) fprintf(stderr, "free %p\n", p);
 	if (i < 0) { vf_ledger_error("yyfree of a pointer that is not a live yyalloc/yyrealloc block (double free or foreign pointer)", p); return; }
 	free(p);
 	vf_live[i] = vf_live[vf_nlive - 1]; vf_live_size[i] = vf_live_size[vf_nlive - 1]; vf_nlive--;
